@@ -46,7 +46,7 @@ class _Unjudged:
 
 UNJUDGED = _Unjudged()
 
-LAWS = ['SplitLaw', 'RightLaw', 'MidLaw', 'ReplaceLaw', 'FindLaw', 'SubstLaw',
+LAWS = ['SplitLaw', 'RightLaw', 'MidLaw', 'ReplaceLaw', 'FindLaw', 'SubstLaw', 'SubstOverlapLaw',
         'ConcatLaw', 'TrimLaw', 'IdemLaw', 'ExactLaw', 'RenderLaw',
         'TextRoundLaw', 'TextShapeLaw']
 VALUE_ERROR = '#VALUE!'
